@@ -346,7 +346,59 @@ pub fn cases(seed: u64, tier: Tier) -> (Cases, serde_json::Value) {
         one_value(&mut cs, &format!("seeded:depth{}", d), &ty, &val, &mut hist);
     }
     crate::ops::c02::c01_generated(&mut cs, &mut rng, tier);
+    runtime_types(&mut cs);
     (cs, serde_json::json!({ "entry_points_hit": hist }))
+}
+
+/// values of the runtime crates' own key types made through their constructors rather than by a reader: doubles in
+/// key position holding a NaN that is not the canonical one, safelongs at the ends of their range
+fn runtime_types(cs: &mut Cases) {
+    use conjure_object::{DoubleKey, SafeLong};
+    use std::collections::{BTreeMap, BTreeSet};
+    fn all_ways<T: serde::Serialize + serde::de::DeserializeOwned + PartialEq + std::fmt::Debug + Clone + std::panic::UnwindSafe + 'static>(cs: &mut Cases, what: &str, v: &T) {
+        let v2 = v.clone();
+        let r = guarded(move || {
+            let mut bad = vec![];
+            let j = conjure_serde::json::to_vec(&v2).map_err(|e| e.to_string())?;
+            let s = conjure_serde::smile::to_vec(&v2).map_err(|e| e.to_string())?;
+            let reads: Vec<(&str, Result<T, String>)> = vec![
+                ("json client slice", conjure_serde::json::client_from_slice(&j).map_err(|e| e.to_string())),
+                ("json server slice", conjure_serde::json::server_from_slice(&j).map_err(|e| e.to_string())),
+                ("json client reader", conjure_serde::json::client_from_reader(&j[..]).map_err(|e| e.to_string())),
+                ("json server reader", conjure_serde::json::server_from_reader(&j[..]).map_err(|e| e.to_string())),
+                ("smile client slice", conjure_serde::smile::client_from_slice(&s).map_err(|e| e.to_string())),
+                ("smile server slice", conjure_serde::smile::server_from_slice(&s).map_err(|e| e.to_string())),
+                ("smile client reader", conjure_serde::smile::client_from_reader(&s[..]).map_err(|e| e.to_string())),
+                ("smile server reader", conjure_serde::smile::server_from_reader(&s[..]).map_err(|e| e.to_string())),
+            ];
+            for (how, got) in reads {
+                if got.as_ref().ok() != Some(&v2) {
+                    bad.push(format!("{}: {:?}", how, got));
+                }
+            }
+            Ok::<_, String>((String::from_utf8_lossy(&j).to_string(), bad))
+        });
+        cs.push("runtime-types", "noop".into(), "noop".into(), true, format!("{} = {:?} written and read back through every entry point", what, v));
+        match r {
+            Ok(Ok((_, bad))) if bad.is_empty() => {}
+            Ok(Ok((j, bad))) => cs.fail_last("runtime-types:roundtrip", format!("{} = {:?} is written as {} and read back as {}", what, v, j, bad.join("; "))),
+            other => cs.fail_last("runtime-types:roundtrip", format!("{} = {:?}: {:?}", what, v, other.map(|_| ()))),
+        }
+    }
+    for nan in [-f64::NAN, f64::from_bits(0x7ff8_0000_0000_0001), f64::from_bits(0xfff0_0000_0000_0001), f64::NAN] {
+        let set: BTreeSet<DoubleKey> = [DoubleKey(1.5), DoubleKey(nan), DoubleKey(f64::NEG_INFINITY)].into_iter().collect();
+        all_ways(cs, "set<double>", &set);
+        let map: BTreeMap<DoubleKey, i32> = [(DoubleKey(nan), 1), (DoubleKey(-0.0), 2)].into_iter().collect();
+        all_ways(cs, "map<double, integer>", &map);
+        let nested: Vec<BTreeMap<DoubleKey, BTreeSet<DoubleKey>>> = vec![[(DoubleKey(nan), [DoubleKey(nan)].into_iter().collect())].into_iter().collect()];
+        all_ways(cs, "list<map<double, set<double>>>", &nested);
+    }
+    for sl in [SafeLong::max_value(), SafeLong::min_value(), SafeLong::default()] {
+        all_ways(cs, "safelong", &sl);
+        all_ways(cs, "list<safelong>", &vec![sl, sl]);
+        let m: BTreeMap<SafeLong, Option<SafeLong>> = [(sl, Some(sl))].into_iter().collect();
+        all_ways(cs, "map<safelong, optional<safelong>>", &m);
+    }
 }
 
 pub const RULE: &str = "typed values over the whole serde data model (bool, i8..u64, f64, f32, str, bytes, unit, option, seq, tuple, map with key types bool / ints / f64 / str / bytes / unit-variant enums / newtypes of these, unit struct, newtype struct, tuple struct, struct, enums with unit, newtype, tuple and struct variants): a deterministic part wraps 12 sensitive leaves (NaN, -Infinity, finite, f32 Infinity, binary, bool, uuid, and maps keyed by bool / double / binary / newtype-of-double) in each of 10 container kinds at depth 1 and a third of depth 2; then seeded type-directed values of depth 1..4 (6), width <= 3 (4), leaves from a sensitive pool. Each value is serialized with json::{to_vec,to_string,to_writer,pretty} and smile::{to_vec,to_writer} (outputs canonicalised by reading them with stock serde_json / serde_smile), then read back by the client and the server deserializer from str/slice/reader (JSON, compact and pretty) and slice/mut_slice/reader (Smile). Compared with the model's document and value; oracle: round trip equal, all sources agree, binary is padded Base64, non-finite doubles are the three strings, keys spelled per the statement, Smile keys equal JSON keys. Evidence lists the serde entry points hit. All cases non-trivial; distinct = distinct operation lines.";
